@@ -258,3 +258,53 @@ def py_rules(res):
                                "remaining unlink / separator work undone "
                                "(partial change)", path=[]))
     res.count("PY-CMP-AFTER-COMMIT", max(1, n))
+
+
+# ---------------------------------------------------------------------------
+# PY-CMP-SWALLOW: an exception raised by a key comparison reaches the caller.
+# No `try` of _base.py whose handler answers instead of re-raising may enclose
+# a call into the comparing layer.
+
+PY_COMPARING = ("_search", "_findbucket", "_set", "_del", "compare", "_range",
+                "minKey", "maxKey", "_p_resolveConflict", "_set_operation",
+                "difference", "union", "intersection", "add", "remove", "discard",
+                "update", "insert", "setdefault", "pop", "get", "has_key",
+                "__contains__", "__getitem__", "__setitem__", "__delitem__", "sorted", "sort")
+PY_HARMLESS_EXC = ("StopIteration", "ImportError", "AttributeError")
+
+
+def py_swallow(res):
+    tree = pyfront.base_py()
+    n = 0
+    for fn in ast.walk(tree):
+        if not isinstance(fn, ast.FunctionDef):
+            continue
+        for tr in ast.walk(fn):
+            if not isinstance(tr, ast.Try):
+                continue
+            for h in tr.handlers:
+                tname = pyfront.unparse(h.type) if h.type is not None else "bare except"
+                if tname in PY_HARMLESS_EXC:
+                    continue
+                n += 1
+                reraises = any(isinstance(x, ast.Raise) for b in h.body for x in ast.walk(b))
+                if reraises:
+                    continue
+                for b in tr.body:
+                    for c in ast.walk(b):
+                        if not isinstance(c, ast.Call):
+                            continue
+                        name = c.func.attr if isinstance(c.func, ast.Attribute) else \
+                            c.func.id if isinstance(c.func, ast.Name) else None
+                        if name in PY_COMPARING:
+                            res.findings.add(dict(
+                                rule="PY-CMP-SWALLOW", function=fn.name, file=REL, line=c.lineno,
+                                construct="`except %s` of %s answers for %s" % (tname, fn.name, pyfront.unparse(c.func)),
+                                detail="%s compares keys; an exception raised by a "
+                                       "comparison inside it is caught by `except %s` "
+                                       "at line %d, which returns an answer instead of "
+                                       "re-raising: the caller never sees the key's "
+                                       "exception" % (pyfront.unparse(c)[:60], tname, h.lineno),
+                                path=[]))
+    res.count("PY-CMP-SWALLOW", n)
+    res.floor("python exception handlers examined", n, 8)
